@@ -2,7 +2,7 @@
     unshared mailbox.  Statements quoted by type from C03Facts.v, NpFactsA/B.v,
     GenidFacts.v (printed by [Check]). *)
 From MW Require Import Base Store Monad Usage Server Websocket Service Findings Inv Obs
-     ProtoFacts StepFacts NpFactsA NpFactsB GenidFacts C03Facts Inst_Params ClaimedPair.
+     ProtoFacts StepFacts NpFactsA NpFactsB GenidFacts C03Facts Inst_Params ClaimedPair NameFacts.
 Local Open Scope list_scope.
 
 (** every `claimed` answer is the mailbox id stored in THE nameplate row of the
@@ -111,3 +111,36 @@ Example C03_nonvacuous :
     [(1%nat, FClaimed (genid "AAAAAAAA")); (2%nat, FClaimed (genid "BBBBBBBB"));
      (3%nat, FClaimed (genid "CCCCCCCC"))].
 Proof. vm_compute. reflexivity. Qed.
+
+(** * distinctness from what clients can observe, not from row ids (quoted by type from NameFacts.v) *)
+
+(** two `claimed` answers for different (app, name) pairs anywhere in a history carry different mailbox ids (pairwise distinct 8-byte draws) *)
+Theorem C03_claimed_pair_distinct_keys : ltac:(let t := type of claimed_pair_distinct_keys in exact t).
+Proof. exact claimed_pair_distinct_keys. Qed.
+Check C03_claimed_pair_distinct_keys.
+Print Assumptions C03_claimed_pair_distinct_keys.
+
+(** the same (app, name), retired in between: a different id *)
+Theorem C03_claimed_pair_distinct_reincarnated : ltac:(let t := type of claimed_pair_distinct_reincarnated in exact t).
+Proof. exact claimed_pair_distinct_reincarnated. Qed.
+Check C03_claimed_pair_distinct_reincarnated.
+Print Assumptions C03_claimed_pair_distinct_reincarnated.
+
+(** the same (app, name): the same id IF AND ONLY IF the nameplate was live throughout *)
+Theorem C03_claimed_pair_same_iff_live : ltac:(let t := type of claimed_pair_same_iff_live in exact t).
+Proof. exact claimed_pair_same_iff_live. Qed.
+Check C03_claimed_pair_same_iff_live.
+Print Assumptions C03_claimed_pair_same_iff_live.
+
+(** the fresh-draw hypothesis is necessary *)
+Theorem C03_reincarnated_without_fresh_draws_refuted : ltac:(let t := type of NameFactsExamples.reincarnated_without_fresh_draws_refuted in exact t).
+Proof. exact NameFactsExamples.reincarnated_without_fresh_draws_refuted. Qed.
+Check C03_reincarnated_without_fresh_draws_refuted.
+Print Assumptions C03_reincarnated_without_fresh_draws_refuted.
+
+(** non-vacuity on a concrete history *)
+Theorem C03_reincarnated_applied : ltac:(let t := type of NameFactsExamples.reincarnated_applied in exact t).
+Proof. exact NameFactsExamples.reincarnated_applied. Qed.
+Check C03_reincarnated_applied.
+Print Assumptions C03_reincarnated_applied.
+
